@@ -144,7 +144,9 @@ Lemma pprf_selective_failure_if_lem : forall H sid sk cb rk tt tree level side d
   accepted (eval_pprf H sid cb rk (adv_msgs H sid sk tt tree level side delta (tree_bits Kdepth tree cb))).
 Proof.
   intros H sid sk cb rk tt tree level side delta Hc Htt Ht.
-  apply (adv_accept_iff_tree H sid Kdepth Ntrees sk cb rk tt tree level side delta _ Kdepth_pos Hc Htt Ht).
+  unfold accepted, adv_msgs, adv_pprf, eval_pprf.
+  apply (proj2 (adv_accept_iff_tree H sid Kdepth Ntrees sk cb rk tt tree level side delta
+                  (tree_bits Kdepth tree cb) Kdepth_pos Hc Htt Ht)).
   apply adv_tree_right. apply (okeys_slice Kdepth Ntrees); assumption.
 Qed.
 
@@ -154,7 +156,8 @@ Lemma pprf_selective_failure_unused_lem : forall H sid sk cb rk tt tree level si
   accepted (eval_pprf H sid cb rk (adv_msgs H sid sk tt tree level side delta g)).
 Proof.
   intros H sid sk cb rk tt tree level side delta g Hc Htt Ht Hl Hg Hcs Hgs.
-  apply (adv_accept_iff_tree H sid Kdepth Ntrees sk cb rk tt tree level side delta _ Kdepth_pos Hc Htt Ht).
+  unfold accepted, adv_msgs, adv_pprf, eval_pprf.
+  apply (proj2 (adv_accept_iff_tree H sid Kdepth Ntrees sk cb rk tt tree level side delta g Kdepth_pos Hc Htt Ht)).
   apply adv_tree_unused.
   - apply (okeys_slice Kdepth Ntrees); assumption.
   - apply (slice_ne Kdepth Ntrees); [exact Kdepth_pos|apply Hc|exact Ht].
@@ -173,7 +176,8 @@ Lemma pprf_selective_failure_only_if_lem : forall H sid sk cb rk tt tree level s
   adv_coincidence H sid sk tt cb tree level side delta g.
 Proof.
   intros H sid sk cb rk tt tree level side delta g Hc Htt Ht Hl Hg HD Hacc.
-  apply (adv_accept_iff_tree H sid Kdepth Ntrees sk cb rk tt tree level side delta _ Kdepth_pos Hc Htt Ht) in Hacc.
+  unfold accepted, adv_msgs, adv_pprf, eval_pprf in Hacc.
+  apply (proj1 (adv_accept_iff_tree H sid Kdepth Ntrees sk cb rk tt tree level side delta g Kdepth_pos Hc Htt Ht)) in Hacc.
   destruct Hacc as [v Ev].
   assert (Lks : length (tree_slice Kdepth tree sk) = Kdepth)
     by (apply (tree_slice_length Kdepth tree Ntrees); [apply Hc|exact Ht]).
@@ -188,8 +192,7 @@ Proof.
   - right. right. right. left. exact C.
   - right. right. right. right. left. exact C.
   - right. right. right. right. right.
-    destruct C as [C1 [C2 [C3 C4]]]. repeat split; try assumption.
-    rewrite <- (okeys_unique _ _ _ (okeys_slice Kdepth Ntrees sk cb rk tree Hc Ht)) in C4 |- *. exact C4.
+    destruct C as [C1 [C2 [C3 C4]]]. repeat split; assumption.
 Qed.
 
 (** the iff, for a tampered word the receiver reads, once the coincidences are excluded *)
